@@ -948,6 +948,27 @@ func AddPlainLength(p *Program) bool {
 
 // AddInlineChain appends a chain root -> Mid (object member) -> inline object -> Leaf (object
 // member): the leaf packet is named only inside an inline object of a packet the root refers to.
+// AddMatchChain appends a chain root -> holder -> holder -> packet with a match field: the
+// packets in between have no match field of their own, but hold (plainly and in a list) one that
+// has. Whatever a generator decides per member "by looking at the member's packet" must look
+// through such holders.
+func AddMatchChain(p *Program) {
+	root := p.RootPacket()
+	if root == nil || p.PacketByName("Zqmleaf") != nil {
+		return
+	}
+	leaf := &Packet{Name: "Zqmleaf", Fields: []*Field{{Kind: KScalar, Type: "u16", Name: "Zqmlv"}}}
+	other := &Packet{Name: "Zqmother", Fields: []*Field{{Kind: KDyn, Name: "Zqmos"}}}
+	mm := &Packet{Name: "Zqmatcher", Fields: []*Field{
+		{Kind: KScalar, Type: "u8", Name: "Zqmkey"},
+		{Kind: KMatch, Name: "Zqmbody", Key: "Zqmkey", Pairs: []Pair{{Keys: []string{"1"}, Target: "Zqmleaf"}, {Keys: []string{"2"}, Target: "Zqmother"}}},
+	}}
+	h2 := &Packet{Name: "Zqholdb", Fields: []*Field{{Kind: KScalar, Type: "u8", Name: "Zqhbv"}, {Kind: KObj, Ref: "Zqmatcher", Name: "Zqhbm"}}}
+	h1 := &Packet{Name: "Zqholda", Fields: []*Field{{Kind: KObj, Ref: "Zqholdb", Name: "Zqhab"}, {Kind: KScalar, Type: "u16", Name: "Zqhav"}}}
+	p.Packets = append(p.Packets, h1, h2, mm, leaf, other)
+	root.Fields = append(root.Fields, &Field{Kind: KObj, Ref: "Zqholda", Name: "Zqha"}, &Field{Kind: KObj, Ref: "Zqholdb", Name: "Zqhbs", Repeat: true})
+}
+
 func AddInlineChain(p *Program) {
 	root := p.RootPacket()
 	if root == nil || p.PacketByName("Zqleaf") != nil {
